@@ -30,17 +30,13 @@ theorem applyOp_dvs_mem {s s' : Snap} {o : Op} (h : applyOp s o = some s')
   · cases h; exact Or.inl hx
   · cases h; exact Or.inl hx
   · cases h; exact Or.inl hx
-  · split at h
-    · cases h; exact Or.inl hx
-    · cases h
+  · cases h; exact Or.inl hx
   · cases h
     simp only [List.mem_cons] at hx
     rcases hx with rfl | hx
     · right; simp [dvKeys]
     · exact Or.inl hx
-  · split at h
-    · cases h; exact Or.inl (List.mem_filter.mp hx).1
-    · cases h
+  · cases h; exact Or.inl (List.mem_filter.mp hx).1
 
 theorem dvKeys_cons (o : Op) (r : List Op) : dvKeys (o :: r) = dvKeys [o] ++ dvKeys r := by
   cases o <;> simp [dvKeys]
